@@ -68,6 +68,17 @@ fn main() {
         }
     }));
     let args: Vec<String> = std::env::args().collect();
+    if args.len() == 3 && args[1] == "show" {
+        // vdrive show <concrete-root-schema.json>: pretty generated code (debugging aid)
+        let text = std::fs::read_to_string(&args[2]).unwrap();
+        let root: schemars::schema::RootSchema = serde_json::from_str(&text).unwrap();
+        let mut st = typify_impl::TypeSpaceSettings::default();
+        st.with_struct_builder(std::env::var("BUILDER").is_ok());
+        let mut ts = typify_impl::TypeSpace::new(&st);
+        println!("{:?}", ts.add_root_schema(root).map(|_| ()));
+        println!("{}", inv::pretty(ts.to_stream()).unwrap_or_else(|e| e));
+        return;
+    }
     if args.len() < 4 {
         eprintln!("usage: vdrive <family> <cases.ndjson> <events.ndjson> [extra...]");
         std::process::exit(2);
